@@ -313,14 +313,22 @@ type importJob struct {
 func importWorker(importWork chan importJob) {
 	for j := range importWork {
 		err := func() error {
+			// Check every view before applying any: the views go to
+			// different fragments, and a request that is going to be
+			// rejected must not leave some of them imported.
+			for viewName, viewData := range j.req.Views {
+				if len(viewData) == 0 {
+					return fmt.Errorf("no data to import for view: %s", viewName)
+				}
+				if err := roaring.ValidateImport(viewData); err != nil {
+					return errors.Wrapf(err, "invalid roaring data for view: %s", viewName)
+				}
+			}
 			for viewName, viewData := range j.req.Views {
 				if viewName == "" {
 					viewName = viewStandard
 				} else {
 					viewName = fmt.Sprintf("%s_%s", viewStandard, viewName)
-				}
-				if len(viewData) == 0 {
-					return fmt.Errorf("no data to import for view: %s", viewName)
 				}
 				fileMagic := uint32(binary.LittleEndian.Uint16(viewData[0:2]))
 				if fileMagic == roaring.MagicNumber { // if pilosa roaring format
